@@ -452,6 +452,9 @@ def check_c07(prog, rep, tier, cfg):
         rep.check(ok, R, "wrapper-skips-asm-lines", "format_line searches a wrapping for AsmInstruction lines", instance={"guard": "line_type != AsmInstruction"})
     # C07.g every logical line finished while parsing asm instructions carries the AsmInstruction type
     asm_lines_typed(prog, rep, "C07.g")
+    # C07.h "code outside these regions is still formatted": the child lines of a line that lies entirely inside a region
+    import layout as _layout
+    _layout.children_of_voided_lines_are_laid_out(prog, rep, "C07.h")
     # C07.f toggler constants
     R = "C07.f"
     vocab = toggle_vocabulary(prog)
